@@ -160,8 +160,9 @@ void set_current_case_lazy(std::string (*render)(void *), void *ctx) { g_render 
 
 static bool g_capture_off = false;
 void disable_crash_capture() { g_capture_off = true; }
+static volatile int g_exiting = 0; // exit() has begun: the statics this callback uses are being destroyed (LeakSanitizer reports at the very end of exit)
 static void on_death() {
-    if (g_capture_off) return;
+    if (g_capture_off || g_exiting) return; // a leak found at exit belongs to no particular case: the log and the exit status carry it
     if (g_dying) return; g_dying = 1;
     std::string text = g_render ? g_render(g_render_ctx) : g_case;
     char fn[64]; snprintf(fn, sizeof fn, "/crash-%d.replay", g_stats.shard);
@@ -171,6 +172,7 @@ static void on_death() {
 static void on_signal(int sig) { on_death(); signal(sig, SIG_DFL); raise(sig); }
 
 void install_crash_capture() {
+    atexit([] { g_exiting = 1; }); // registered from main(), so it runs before any static destructor
     if (__sanitizer_set_death_callback) __sanitizer_set_death_callback(on_death);
     else { signal(SIGSEGV, on_signal); signal(SIGBUS, on_signal); signal(SIGFPE, on_signal); signal(SIGILL, on_signal); }
     signal(SIGABRT, on_signal); // assert() failures
